@@ -80,3 +80,138 @@ Example C18_nonvacuous :
   dispatch_get_global_queue 2 0 = root_queue_addr 8 /\ dispatch_get_global_queue 33 2 = root_queue_addr 9 /\
   dispatch_get_global_queue 7 0 = 0.
 Proof. unfold valid_attr. repeat split; try (vm_compute; reflexivity); [right|left]; vm_compute; intuition congruence. Qed.
+
+(* ======================================================================================================================
+   C18-FRAMES extension (worker) — the clause that was missing above:
+   "Inside a work item, dispatch_get_specific(key) returns the value set for key on the nearest queue in the chain from the queue
+    the item was submitted to down through its target queues, or NULL, and dispatch_assert_queue accepts exactly the queues of
+    that chain (and those of the submitting context for synchronous submissions) while dispatch_assert_queue_not accepts exactly
+    the others."
+   Model: Model/Frames.v (hand-written, tied by harness/c18_frames.c + lib/props/c18_frames.py).  All theorems hold for every
+   finite acyclic queue graph (`wf_graph g = true`: any depth, any fan-in), every frame stack and every placement of keys.
+   ====================================================================================================================== *)
+From Coq Require Import List Permutation.
+From Verif Require Import Gen_dqstate Frames Frames_proofs.
+Import ListNotations.
+
+(* _dispatch_thread_frame_find_queue never runs out of the fuel the model gives it, and is true exactly for the queues on the
+   target chain of the current queue and of each saved frame (down to the first frame that recorded no queue) *)
+Theorem C18_find_queue_exact : forall g th x, wf_graph g = true ->
+  exists b, find_queue_opt g th x = Some b /\
+    (b = true <-> t_cq th <> 0 /\ (on_chain g (t_cq th) x \/ exists f, In f (live_frames (t_frames th)) /\ on_chain g f x)).
+Proof. exact find_queue_total. Qed.
+Print Assumptions C18_find_queue_exact.
+
+(* frames that repeat queues of the current chain — present or left out by redirection through concurrent queues
+   ("simulate the missing links") — do not change the verdict *)
+Theorem C18_find_queue_skipped_frames_irrelevant : forall g cq fr x, wf_graph g = true -> cq <> 0 ->
+  (forall f, In f fr -> f <> 0 -> on_chain g cq f) ->
+  (find_queue g {| t_cq := cq; t_frames := fr |} x = true <-> on_chain g cq x).
+Proof. exact frames_on_chain_irrelevant. Qed.
+Print Assumptions C18_find_queue_skipped_frames_irrelevant.
+
+(* dispatch_get_specific: the value of the nearest queue, from the current queue down its target chain, that has a value for
+   the key; NULL when none has (or key / current queue is NULL).  `nearest` is functional. *)
+Theorem C18_get_specific_nearest : forall g th key, wf_graph g = true -> key <> 0 -> t_cq th <> 0 ->
+  exists v, get_specific_opt g th key = Some v /\ nearest g key (t_cq th) v.
+Proof. exact get_specific_nearest. Qed.
+Print Assumptions C18_get_specific_nearest.
+Theorem C18_nearest_functional : forall g key q v1, nearest g key q v1 -> forall v2, nearest g key q v2 -> v1 = v2.
+Proof. exact nearest_functional. Qed.
+Print Assumptions C18_nearest_functional.
+Theorem C18_get_specific_null : forall g th key, key = 0 \/ t_cq th = 0 -> get_specific_opt g th key = Some 0.
+Proof. exact get_specific_null. Qed.
+Print Assumptions C18_get_specific_null.
+(* a queue contributes a value exactly when it admits specifics and its list holds an entry for the key *)
+Theorem C18_specific_value_is_held : forall g q key v, v <> 0 -> (get_specific_inline g q key = v <-> holds g q key v).
+Proof. exact inline_holds. Qed.
+Print Assumptions C18_specific_value_is_held.
+
+(* dispatch_assert_queue = drain-locked-by-self OR find_queue; dispatch_assert_queue_not is its exact complement;
+   objects that are neither lanes nor workloops crash both *)
+Theorem C18_assert_queue_exact : forall g st tid th dq r, lookup g dq = Some r -> valid_assert_type r = true ->
+  (assert_queue g st tid th dq = APass <-> locked_by_self st tid = true \/ find_queue g th dq = true) /\
+  (assert_queue g st tid th dq = AFail <-> locked_by_self st tid = false /\ find_queue g th dq = false).
+Proof. exact assert_queue_exact. Qed.
+Print Assumptions C18_assert_queue_exact.
+Theorem C18_assert_queue_not_complement : forall g st tid th dq r, lookup g dq = Some r -> valid_assert_type r = true ->
+  (assert_queue_not g st tid th dq = APass <-> assert_queue g st tid th dq = AFail) /\
+  (assert_queue_not g st tid th dq = AFail <-> assert_queue g st tid th dq = APass) /\
+  assert_queue g st tid th dq <> ACrash /\ assert_queue_not g st tid th dq <> ACrash.
+Proof. exact assert_queue_not_complement. Qed.
+Print Assumptions C18_assert_queue_not_complement.
+Theorem C18_assert_queue_invalid_type : forall g st tid th dq,
+  (lookup g dq = None \/ exists r, lookup g dq = Some r /\ valid_assert_type r = false) ->
+  assert_queue g st tid th dq = ACrash /\ assert_queue_not g st tid th dq = ACrash.
+Proof. exact assert_queue_invalid_type. Qed.
+Print Assumptions C18_assert_queue_invalid_type.
+
+(* dispatch_queue_set_specific replaces (or, for NULL, removes) the value of the key on that queue only, leaves the graph alone,
+   keeps the list invariant, and posts the destructor of the old value exactly when it had one *)
+Theorem C18_set_specific_replaces : forall g dq key ctxt dtor r, specifics_ok g -> key <> 0 ->
+  lookup g dq = Some r -> admits_specific r = true ->
+  exists g' posted, set_specific g dq key ctxt dtor = SetOk g' posted /\
+    queue_get_specific g' dq key = ctxt /\
+    (forall q' k', q' <> dq \/ k' <> key -> get_specific_inline g' q' k' = get_specific_inline g q' k') /\
+    (forall q', target g' q' = target g q') /\ wf_graph g' = wf_graph g /\ specifics_ok g' /\
+    posted = old_posts (if q_head r then q_entries r else []) key.
+Proof. exact set_specific_replaces. Qed.
+Print Assumptions C18_set_specific_replaces.
+(* over any history of set_specific calls on a queue, the destructor calls posted so far together with the entries that still
+   hold a destructor (the ones _dispatch_queue_specific_head_dispose calls) are, as a multiset, exactly the (value, destructor)
+   pairs ever stored: each old destructor runs exactly once *)
+Theorem C18_destructors_exactly_once : forall ops l,
+  Permutation (snd (run_entries l ops) ++ dtor_entries (fst (run_entries l ops))) (sets_with_dtor ops ++ dtor_entries l).
+Proof. exact destructors_exactly_once. Qed.
+Print Assumptions C18_destructors_exactly_once.
+
+(* ---- inside a work item.  PARTIAL in this sense only: `frames_of_path` (which current queue and frames each submission path —
+   async, barrier, group, blocks with private data, sync fast/slow, sync executed by a bound thread through
+   _dispatch_async_and_wait_invoke with dc_other, async_and_wait, redirection through concurrent queues, apply — establishes)
+   is HAND-WRITTEN and tied to the library only by the correspondence run, not by proof.  Full statement = the three theorems
+   below with `frames_of_path g p` replaced by "the thread state the library has when the item submitted along p runs". *)
+Theorem C18_item_get_specific_partial : forall g p key, wf_graph g = true -> path_top p <> 0 -> key <> 0 ->
+  exists v, get_specific_opt g (frames_of_path g p) key = Some v /\ nearest g key (path_top p) v.
+Proof. exact item_get_specific. Qed.
+Print Assumptions C18_item_get_specific_partial.
+Theorem C18_item_current_queue_partial : forall g p dflt, wf_graph g = true -> path_top p <> 0 ->
+  current_queue_or_default dflt (frames_of_path g p) = path_top p.
+Proof. exact item_current_queue. Qed.
+Print Assumptions C18_item_current_queue_partial.
+(* accepted = queues of the chain of the queue submitted to, plus (synchronous submissions) whatever the submitting context
+   accepted, plus queues whose drain lock the executing thread holds; assert_queue_not accepts exactly the others *)
+Theorem C18_item_assert_queue_partial : forall g p st tid q r, wf_graph g = true -> path_top p <> 0 ->
+  lookup g q = Some r -> valid_assert_type r = true ->
+  (assert_queue g st tid (frames_of_path g p) q = APass <->
+     locked_by_self st tid = true \/ on_chain g (path_top p) q \/
+     match path_ctx p with Some c => find_queue g c q = true | None => False end) /\
+  (assert_queue_not g st tid (frames_of_path g p) q = APass <->
+     ~ (locked_by_self st tid = true \/ on_chain g (path_top p) q \/
+        match path_ctx p with Some c => find_queue g c q = true | None => False end)).
+Proof. exact item_assert_queue. Qed.
+Print Assumptions C18_item_assert_queue_partial.
+(* a block run on behalf of a sync waiter by the thread a queue is bound to sees what the waiter itself would see *)
+Theorem C18_remote_same_as_self : forall g top ctx runner,
+  frames_of_path g (PSyncRemote top ctx runner) = frames_of_path g (PSync top ctx).
+Proof. exact remote_same_as_self. Qed.
+Print Assumptions C18_remote_same_as_self.
+
+(* hypotheses are satisfiable on a non-trivial state: 3 (concurrent) -> 2 -> 1 -> main queue (thread-bound) -> root 107,
+   6 -> 5 -> 4 (all concurrent) -> root 106; keys at several levels; a sync from inside an item of queue 6 *)
+Example C18_frames_nonvacuous :
+  let g0 := example_graph in
+  wf_graph g0 = true /\
+  match run_sets g0 [(1, 1, 9001, 0); (2, 2, 9002, 1); (3, 3, 9003, 0); (200, 3, 9004, 0); (2, 1, 9005, 0); (2, 2, 9008, 1); (107, 2, 7, 0)] with
+  | Some (g, posted) =>
+      posted = [(9002, 1)] /\
+      let item := frames_of_path g (PAsync 6 [5; 4]) in                (* async on 6, redirected through 5 and 4 *)
+      let inner := frames_of_path g (PSyncRemote 3 item {| t_cq := 200; t_frames := [] |}) in   (* sync onto 3 from inside it, run by the main thread *)
+      item = {| t_cq := 6; t_frames := [106] |} /\ inner = {| t_cq := 3; t_frames := [6; 106] |} /\
+      map (get_specific g inner) [1; 2; 3; 4] = [9005; 9008; 9003; 0] /\
+      map (find_queue g inner) [3; 2; 1; 200; 107; 6; 5; 4; 106] = [true; true; true; true; true; true; true; true; true] /\
+      map (find_queue g item) [6; 5; 4; 106; 3; 200] = [true; true; true; true; false; false] /\
+      assert_queue g 0 77 item 3 = AFail /\ assert_queue_not g 0 77 item 3 = APass /\ assert_queue g 77 77 item 3 = APass
+  | None => False
+  end.
+Proof. vm_compute. repeat split; reflexivity. Qed.
+(* end of the C18-FRAMES extension *)
